@@ -310,15 +310,50 @@ inline Outcome runTridiagCase(const KV& c)
 
     // DiagonalSolver: x_i = b_i / d_i, correctly rounded
     {
-        DiagonalSolver<double> D(n);
+        // the object that solves is, depending on `relocate`, the filled one, a copy-constructed one, a move-constructed one,
+        // or one copy-/move-assigned over an object of another dimension (the smoothers hold these solvers in vectors and
+        // are themselves copied); every right-hand side of the case is solved ("every time")
+        const int relocate = (int)c.getI("relocate", 0);
+        auto filled        = std::make_unique<DiagonalSolver<double>>(n);
         for (int i = 0; i < n; i++)
-            D.diagonal(i) = mainD[i];
-        std::vector<double> b = tridiagRhs(n, rhs_kind, seed, 0), x = b;
-        D.solveInPlace(x.data());
-        for (int i = 0; i < n; i++) {
-            if (x[i] != b[i] / mainD[i]) {
-                o.fail("diagonal_solver", "DiagonalSolver entry " + std::to_string(i) + " is not b/d");
-                return o;
+            filled->diagonal(i) = mainD[i];
+        std::unique_ptr<DiagonalSolver<double>> D;
+        switch (relocate) {
+        case 1:
+            D = std::make_unique<DiagonalSolver<double>>(*filled);
+            filled.reset();
+            break;
+        case 2:
+            D = std::make_unique<DiagonalSolver<double>>(std::move(*filled));
+            filled.reset();
+            break;
+        case 3:
+            D  = std::make_unique<DiagonalSolver<double>>(n + 3);
+            *D = *filled;
+            filled.reset();
+            break;
+        case 4:
+            D  = std::make_unique<DiagonalSolver<double>>(n > 2 ? n - 1 : n + 1);
+            *D = std::move(*filled);
+            filled.reset();
+            break;
+        default:
+            D = std::move(filled);
+            break;
+        }
+        if (D->rows() != n || D->columns() != n) {
+            o.fail("diagonal_solver", "DiagonalSolver reports dimension " + std::to_string(D->rows()) + " x " + std::to_string(D->columns()));
+            return o;
+        }
+        for (int r = 0; r < nrhs; r++) {
+            std::vector<double> b = tridiagRhs(n, rhs_kind, seed, r), x = b;
+            D->solveInPlace(x.data());
+            for (int i = 0; i < n; i++) {
+                if (!(x[i] == b[i] / mainD[i])) {
+                    o.fail("diagonal_solver", "DiagonalSolver (relocate " + std::to_string(relocate) + "), rhs #" + std::to_string(r) + ": entry " +
+                                                  std::to_string(i) + " is not b/d");
+                    return o;
+                }
             }
         }
     }
